@@ -241,7 +241,7 @@ class NameGen:
 WEIGHTS = {
     'add_fp': 30, 'add_dir': 14, 'rm_file': 6, 'rm_dir': 4, 'add_link': 8, 'rm_link': 5,
     'add_symlink': 5, 'hide': 3, 'add_eltorito': 3, 'rm_eltorito': 1, 'add_isohybrid': 1,
-    'rm_isohybrid': 1, 'dup_pvd': 0.3, 'restart': 4, 'mass_dirs': 1, 'mass_files': 1, 'add_boot_file': 0, 're_add': 1.5, 'chain_dirs': 0.8, 'mass_eltorito': 0.05, 'shared_hidden_boot': 0.5, 'hybrid_setup': 0.3, 'set_relocated_name': 0.6, 'recreate_dir': 1.2,
+    'rm_isohybrid': 1, 'dup_pvd': 0.3, 'restart': 4, 'mass_dirs': 1, 'mass_files': 1, 'add_boot_file': 0, 're_add': 1.5, 'chain_dirs': 0.8, 'mass_eltorito': 0.05, 'shared_hidden_boot': 0.5, 'hybrid_setup': 0.3, 'set_relocated_name': 0.6, 'recreate_dir': 1.2, 'mass_rm_dirs': 0.8, 'ptr_cycle': 0.04,
 }
 
 
@@ -410,6 +410,8 @@ class OpGen:
                 return None
             op['udf'] = M.join(parent, nm)
         op['route'] = self.ra.choice(('fp', 'fp', 'fp', 'file'))
+        if op['route'] == 'fp' and self.ra.random() < 0.15:
+            op['tail'] = self.ra.choice((1, 3, 100, 2048, 5000))     # the file object holds more than `length` bytes
         self.next_blob += 1
         return op
 
@@ -983,6 +985,65 @@ class OpGen:
         e1 = {'op': 'add_eltorito', 'boot': op['iso'], 'media': 'noemul', 'platform': 0, 'bootable': True, 'load_seg': 0, 'efi': False, 'bit': r.random() < 0.4}
         e2 = dict(e1, efi=True, platform=0xef, bit=False)
         return [op, e1, e2, {'op': 'rm_link', 'ns': 'iso', 'path': op['iso']}]
+
+    def g_mass_rm_dirs(self):
+        """Macro-op: most of the empty directories of a crowded parent go away again, so that directory extents and the
+        path tables shrink back over their sector (and 4 KiB) boundaries."""
+        m = self.m
+        r = self.ra
+        cands = []
+        for ns in m.roots:
+            for p, n in [('/', m.roots[ns])] + [(p_, n_) for p_, n_ in m.iter_ns(ns) if n_.kind == 'dir']:
+                empties = [nm for nm, ch in n.children.items() if ch.kind == 'dir' and not ch.children]
+                if len(empties) >= 10:
+                    cands.append((ns, p, empties))
+        if not cands:
+            return None
+        best = r.choice(cands)
+        ns, p, empties = best
+        keep = r.choice((0, 1, 3, len(empties) // 2))
+        r.shuffle(empties)
+        return [{'op': 'rm_dir', ns: M.join(p, nm)} for nm in empties[keep:]]
+
+    def g_ptr_cycle(self):
+        """Macro-op: enough directories to push the path tables over 4 KiB (they then take two more sectors each), possibly a
+        duplicate PVD in between, and most of them removed again so that the tables shrink back."""
+        m = self.m
+        r = self.ra
+        if any(len(n.children) > 200 for _, n in m.iter_ns('iso') if n.kind == 'dir') or len(m.roots['iso'].children) > 200:
+            return None
+        parent = self._pick_dir('iso', 6 if not (m.rr or m.cfg['level'] == 4) else None)
+        if parent is None or m.relocates(M.join(parent, 'X')):
+            return None
+        pn = m.get('iso', parent)
+        taken = {k.split(';')[0] for k in pn.children}
+        used_rr = {ch.rr for ch in pn.children.values()}
+        n = r.choice((300, 330, 420))
+        out = []
+        for i in range(n):
+            nm = 'P%04d' % i
+            if nm in taken:
+                return None
+            op = {'op': 'add_dir', 'iso': M.join(parent, nm)}
+            if m.rr:
+                rn = 'p%04d' % i
+                if rn in used_rr:
+                    return None
+                op['rr'] = rn
+            out.append(op)
+        k = r.random()
+        dups_ok = self.w.get('dup_pvd', 0) > 0 and m.pvd_dups < 3      # profiles that keep duplicate PVDs out keep them out here too
+        if k < 0.5 and dups_ok:
+            out.append({'op': 'dup_pvd'})
+        elif k < 0.65 and dups_ok:
+            out.insert(0, {'op': 'dup_pvd'})
+        if r.random() < 0.3:
+            out.append({'op': 'restart'})
+        keep = r.choice((0, 5, 40))
+        for op in out[keep:n]:
+            if op['op'] == 'add_dir':
+                out.append({'op': 'rm_dir', 'iso': op['iso']})
+        return out
 
     def g_recreate_dir(self):
         """Macro-op: empty a small directory, remove it, create it again under the same path and put entries back under their
